@@ -21,6 +21,7 @@ Step(e) ==
       [] e.op = "ISelf" -> IF e.o = "xor" THEN s' = e.list /\ res' = None ELSE ISelf(e.o)
       [] e.op = "Pure" -> s' = s /\ res' = e.res
       [] e.op = "IterRemove" -> IterRemove({x \in Elem : e.f[x]})
+      [] e.op = "RevIterRemove" -> RevIterRemove({x \in Elem : e.f[x]})
       [] e.op = "Eq" -> Eq(e.q)
       [] e.op = "Ne" -> Ne(e.q)
       [] e.op = "New" -> New(e.q)
